@@ -62,6 +62,10 @@ func c05Jobs(tier string) []string {
 		add(fmt.Sprintf("or=r,devs=,mss=100,w=1500,silent=%d,b=0", k), 1)
 	}
 	add("or=r,devs=lh,mss=100,w=500,silent=2,b=1", 1)
+	// a timeout with a backlog (more written than the window lets out), then a loss among the
+	// segments first sent after it: a new episode, fast retransmit is due again
+	add("or=r,devs=l,mss=100,w=3000,silent=1,b=1", 2)
+	add("or=r,devs=l,mss=100,w=3000,silent=1,rtt=50,b=1", 2)
 	if tier == "thorough" {
 		for _, f := range []int{4, 6, 10} {
 			add(fmt.Sprintf("%s,w=%dx100,rtt=150,b=2", base, f), 16)
